@@ -89,13 +89,12 @@ pub fn run(ctx: &mut Ctx) {
     let cfg = GenCfg::standard();
     let n = ctx.n(500, 30_000);
     let cases = matcher_cases(prop, ctx, &cfg, n);
-    ctx.ev.rule = "corpus + repo fixtures + generated ledgers (gains and losses, several sales per day, dividends, cost events) × exemption configurations (embedded, embedded with overrides, all years). Compared: every field of the report. Non-trivial = accepted report with ≥ 2 disposals in one tax year, or both a gain and a loss; distinct by ledger text + configuration.".into();
+    ctx.ev.rule = "corpus + repo fixtures + generated ledgers (gains and losses, several sales per day, dividends, cost events) × exemption configurations (embedded, embedded with overrides, all years). Compared: every field of the report against the model's reportFrom applied to the implementation's own legs (so the matcher is outside this property's projection). Non-trivial = accepted report with ≥ 2 disposals in one tax year, or both a gain and a loss; distinct by ledger text + configuration.".into();
     let mut r = crate::rng::Rng::new(ctx.seed ^ 0xC04);
     for (name, l) in cases {
         ctx.ev.evaluations += 1;
         let ex = gen_exemptions(&mut r);
         let imp = run_impl::impl_calc(&l, None, &ex);
-        let msd = multi_sell_day(&l);
         match &imp {
             Ok(rep) => {
                 ctx.ev.count("accepted");
@@ -116,17 +115,21 @@ pub fn run(ctx: &mut Ctx) {
                 }
             }
         }
+        // correspondence (projection of this property): calculator.rs alone — the model's
+        // `reportFrom` applied to the implementation's own matcher output must give the
+        // implementation's report
         if let Some(m) = ctx.model.as_mut() {
-            match run_impl::model_calc(m, &l, None, &ex) {
-                Err(e) => ctx.ev.violation("correspondence", format!("driver: {e}"), replay_text(prop, "correspondence", &e, &l, &[])),
-                Ok(mo) => {
-                    ctx.ev.traces_validated += 1;
-                    let mut p = Proj::full();
-                    if msd { p.legs_exact = false; }
-                    // which unsupported year is named first depends on hash order in the code
-                    p.err_detail = !matches!(&imp, Err(e) if e.kind == "unsupportedExemptionYear");
-                    if let Some(what) = rep::diff_report(&imp, &mo, &p) {
-                        ctx.ev.violation("correspondence", what.clone(), replay_text(prop, "correspondence (implementation vs Lean model, whole report)", &what, &l, &[format!("case {name}"), format!("exemptions {}", run_impl::exemptions_wire(&ex))]));
+            if let Ok(Ok(raw)) = run_impl::impl_match_raw(&l) {
+                match run_impl::model_report_from(m, &raw, &l, None, &ex) {
+                    Err(e) => ctx.ev.violation("correspondence", format!("driver: {e}"), replay_text(prop, "correspondence", &e, &l, &[])),
+                    Ok(mo) => {
+                        ctx.ev.traces_validated += 1;
+                        let mut p = Proj::full();
+                        // which unsupported year is named first depends on hash order in the code
+                        p.err_detail = !matches!(&imp, Err(e) if e.kind == "unsupportedExemptionYear");
+                        if let Some(what) = rep::diff_report(&imp, &mo, &p) {
+                            ctx.ev.violation("correspondence", what.clone(), replay_text(prop, "correspondence (implementation's report vs Lean reportFrom on the implementation's legs)", &what, &l, &[format!("case {name}"), format!("exemptions {}", run_impl::exemptions_wire(&ex))]));
+                        }
                     }
                 }
             }
